@@ -189,7 +189,7 @@ PROPS = {
         module="Bita.Props.C01",
         level="proof",
         needs_bita=True,
-        required_theorems=["compress_conforms", "roundtrip", "cli_roundtrip", "roundtrip_over_http", "stages_preserve_order", "temp_file_complete"],
+        required_theorems=["compress_conforms", "roundtrip", "cli_roundtrip", "roundtrip_over_http", "stages_preserve_order", "temp_file_complete", "lib_temp_file_flushed_fact"],
         suites=dict(quick=[("py", "c01_roundtrip"), ("l1", "c08-http")], thorough=[("py", "c01_roundtrip"), ("py", "c12_determinism"), ("l1", "c08-http")]),
         rule="random sources (empty, 1 byte, zeros, constant, repetitive blocks, text, random; up to 20 kB) x random valid configs x hash "
              "lengths x none/brotli levels x buffer counts x file/stdin; oracles: clone output == source, info reports size and Blake2 "
@@ -234,7 +234,7 @@ PROPS = {
         module="Bita.Props.C04",
         level="proof",
         needs_bita=True,
-        required_theorems=["clone_sound_against_any_reader", "clone_sound_against_any_server", "clone_steps_as_modelled", "header_tamper", "pin_mismatch_refused", "pinned_header_is_genuine", "verify_output_sound"],
+        required_theorems=["clone_sound_against_any_reader", "clone_sound_against_any_server", "clone_steps_as_modelled", "header_tamper", "pin_mismatch_refused", "pinned_header_is_genuine", "verify_output_sound", "verify_output_sound_file", "pin_length_checked_fact"],
         suites=dict(quick=[("py", "c04_corruption"), ("l1", "fmt")], thorough=[("py", "c04_corruption"), ("l1", "fmt")]),
         rule="per archive (none/brotli, hash length 8/16/64): 120 sampled single-bit flips (every bit of tiny archives in thorough), "
              "truncations at structural offsets, random overwrites, payload swap, trailing garbage, x {plain, seed, --verify-output, pinned}; "
@@ -279,7 +279,7 @@ PROPS = {
         level="proof",
         needs_bita=True,
         required_theorems=["fetch_exact", "unchanged_tail_not_fetched", "scan_starts_at_zero_fact", "clone_steps_as_modelled"],
-        suites=dict(quick=[("py", "c02_seeds"), ("l1", "c03"), ("l1", "c07"), ("l1", "c08-http")], thorough=[("py", "c02_seeds"), ("l1", "c03"), ("l1", "c07"), ("l1", "c08-http")]),
+        suites=dict(quick=[("py", "c02_seeds"), ("l1", "c03"), ("l1", "c07"), ("l1", "c08-http"), ("l1", "c08-io")], thorough=[("py", "c02_seeds"), ("l1", "c03"), ("l1", "c07"), ("l1", "c08-http"), ("l1", "c08-io")]),
         rule="as C02; compared: the exact list of fetched (offset,size) ranges beyond the header; oracles: no range twice, nothing fetched when "
              "a seed is the source or the output already holds it (regular file and block device)",
         trusted_base=LEAN_TB + ["strace"],
@@ -299,7 +299,7 @@ PROPS = {
         module="Bita.Props.C11",
         level="proof",
         needs_bita=True,
-        required_theorems=["header_layout", "proto_roundtrip", "writer_invariants", "descriptors_unique_first_occurrence", "reader_reports_verbatim"],
+        required_theorems=["header_layout", "proto_roundtrip", "writer_invariants", "descriptors_unique_first_occurrence", "reader_reports_verbatim", "lib_temp_file_flushed_fact"],
         suites=dict(quick=[("py", "c11_conformance"), ("l1", "fmt")], thorough=[("py", "c11_conformance"), ("l1", "fmt")]),
         rule="archives of both writers over random sources/configs/hash lengths/compression/metadata (incl. empty key, non-ASCII, long values): "
              "Python conformance checklist on the raw bytes; prost vs model: encode-dict byte-exact, decode-dict field-exact on encodings, "
@@ -320,7 +320,7 @@ PROPS = {
         module="Bita.Props.C12",
         level="proof",
         needs_bita=True,
-        required_theorems=["archive_independent_of_schedule_and_delivery"],
+        required_theorems=["archive_independent_of_schedule_and_delivery", "lib_temp_file_flushed_fact"],
         suites=dict(quick=[("py", "c12_determinism")], thorough=[("py", "c12_determinism")]),
         rule="per input 5 (8 thorough) CLI runs varying buffered-chunks, TOKIO_WORKER_THREADS, taskset, file/pipe + 1 library run with "
              "fragmented reads; oracle: one distinct archive per input",
@@ -340,7 +340,7 @@ PROPS = {
         module="Bita.Props.C14",
         level="proof",
         needs_bita=True,
-        required_theorems=["facts_as_expected", "refused_invalid_archive", "refused_pin_mismatch", "refused_output_exists", "refused_small_device", "compress_refused_output_exists"],
+        required_theorems=["facts_as_expected", "pin_length_checked_fact", "refused_invalid_archive", "refused_pin_mismatch", "refused_output_exists", "refused_small_device", "compress_refused_output_exists"],
         suites=dict(quick=[("py", "c14_refusals")], thorough=[("py", "c14_refusals")]),
         rule="the full table (90 clone rows + 4 compress rows per repetition, random pre-existing content); oracle: refused => non-zero exit, "
              "output byte-identical / still absent; proceeds => output == source (block device: prefix, length kept)",
@@ -365,8 +365,8 @@ PROPS = {
         module="Bita.Props.C15",
         level="proof",
         needs_bita=True,
-        required_theorems=["tryInit_total", "accepted_archive_is_safe", "scan_is_bounded", "accepted_iff_valid", "accepted_archive_scan_is_bounded", "server_bytes_safe", "remote_open_total", "local_open_total", "local_header_read_allocation_bounded", "remote_header_read_buffering_bounded", "decoded_chunk_follows_declared_sizes", "accepted_archive_ranges_fit_u64", "remote_reader_sums_are_chunk_ends"],
-        suites=dict(quick=[("l1", "fmt"), ("py", "c15_cli"), ("l1", "c08-http")], thorough=[("l1", "fmt"), ("py", "c15_cli"), ("l1", "c08-http")]),
+        required_theorems=["tryInit_total", "accepted_archive_is_safe", "scan_is_bounded", "accepted_iff_valid", "accepted_archive_scan_is_bounded", "server_bytes_safe", "remote_open_total", "local_open_total", "local_header_read_allocation_bounded", "remote_header_read_buffering_bounded", "decoded_chunk_follows_declared_sizes", "accepted_archive_ranges_fit_u64", "remote_reader_sums_are_chunk_ends", "decoded_chunk_has_declared_size"],
+        suites=dict(quick=[("l1", "fmt"), ("py", "c15_cli"), ("l1", "c08-http"), ("l1", "c08-io")], thorough=[("l1", "fmt"), ("py", "c15_cli"), ("l1", "c08-http"), ("l1", "c08-io")]),
         rule="library: random/wild dictionaries under header::build, wire-level crafted dictionaries and declared-size/offset lies under a "
              "recomputed checksum, bit flips, truncations, random bytes; CLI: 22 field mutations x 4 commands + 13 server scripts; "
              "outcome classes compared with the model's tryInit/banner",
